@@ -91,6 +91,7 @@ package memstore
 
 //@ func upsertInternal
 //@   props C14
+//@   bounded memstore_ops size estimate and reference map: all call sequences of length <= 4 over 2 keys x 2 value lengths
 //@   replay memstore_ops
 //@   requires [ri] memRI(m)
 //@   requires [cells-preexist] forall k Bytes :: slHas(m.skipListMap, k) ==> !fresh(vcell(m, k))
